@@ -175,13 +175,49 @@ def structured(fmt, rng, n, malformed_share=4, ops_fn=None):
     return out
 
 
+def record_positions(fmt, text):
+    """(line, byte) of the places where the format rules let a record start: every line beginning
+    with '>' (FASTA), every fourth line from the first non-skipped one (FASTQ).  Used only to AIM
+    seeks (K ops) at record positions without reading them first; the oracle decides from the
+    Spec stream what a target is (a target that is no item start switches the cursor oracle off)."""
+    text = bytes(text)
+    out = []
+    off = 0
+    lines = text.split(b'\n')
+    if fmt == 'fa':
+        for i, l in enumerate(lines):
+            if l.startswith(b'>'):
+                out.append((i + 1, off))
+            off += len(l) + 1
+    else:
+        for i, l in enumerate(lines):
+            if i % 4 == 0 and off < len(text):
+                out.append((i + 1, off))
+            off += len(l) + 1
+    return out
+
+
+def kseek(rng, pos):
+    l, b = rng.choice(pos)
+    return 'K%d.%d' % (l, b)
+
+
 def rnd_history(rng, text, fmt, with_seek=True, maxlen=12):
-    """random operation list biased towards switches between kinds"""
+    """random operation list biased towards switches between kinds; seeks go to saved positions (J)
+    and, without having read them, to record positions computed from the text (K) -- also as the
+    very first operation on a new reader"""
     ops = []
     n = rng.range(2, maxlen)
     saved = 0
+    pos = record_positions(fmt, text) if with_seek else []
+    if pos and rng.chance(1, 5):
+        ops.append(kseek(rng, pos))
     for _ in range(n):
-        k = rng.below(12)
+        k = rng.below(13)
+        if k == 12:
+            if pos:
+                ops.append(kseek(rng, pos))
+            continue
         if k <= 2:
             ops.append('N')
         elif k == 3:
